@@ -19,6 +19,7 @@ import (
 	"strconv"
 	"strings"
 	"sync"
+	"time"
 )
 
 // Env holds the per-run build products. Everything is built lazily into a fresh
@@ -61,6 +62,14 @@ func NewEnv(tier string) (*Env, error) {
 	}
 	e.Seed = seed
 	base := envOr("VERIF_SCRATCH", os.TempDir())
+	// sweep scratch directories of runs that died before cleaning up (older than 6 hours)
+	if old, _ := filepath.Glob(filepath.Join(base, "verifrun-*")); len(old) > 0 {
+		for _, d := range old {
+			if st, err := os.Stat(d); err == nil && time.Since(st.ModTime()) > 6*time.Hour {
+				os.RemoveAll(d)
+			}
+		}
+	}
 	w, err := os.MkdirTemp(base, "verifrun-")
 	if err != nil {
 		return nil, err
